@@ -11,6 +11,12 @@ def handle : List String → String
   | ["eval", s] => match decStr s with
       | some cs => (match evalExpr cs with | some v => "ok " ++ encStr v | none => "err syntax")
       | none => "bad-op"
+  | "select" :: v :: names => match decStr v, names.mapM decStr with
+      | some v, some ns => (match selectByName ns v with
+          | .error => "err syntax"
+          | .nothing => "ok NONE"
+          | .at i => s!"ok {i}")
+      | _, _ => "bad-op"
   | _ => "bad-op"
 
 end Odf.Drv.XPathLit
